@@ -162,16 +162,11 @@ def binReadDense (fixed : Bool) (memLimit : Nat) (vsz : Nat) (dec : Bytes → V)
 def binWriteRaw (enc : V → Bytes) (A : RawCRS V) : Bytes :=
   enc64 A.nrows ++ (A.ptr.flatMap encS64 ++ (A.col.flatMap encS64 ++ A.val.flatMap enc))
 
-/-- the raw arrays of a `CRS` (what `mm2bin` holds after reading): `ptr` from the row lengths -/
-def ptrOfLens (acc : Int) : List Nat → List Int
-  | [] => []
-  | k :: t => (acc + k) :: ptrOfLens (acc + k) t
+/-- a `CRS` row with its column indices as the signed C++ index type -/
+def intRow (r : Row V) : List (Int × V) := r.map (fun cv => ((cv.1 : Int), cv.2))
 
-def RawCRS.ofCRS (A : CRS V) : RawCRS V :=
-  { nrows := A.nrows, ncols := A.ncols,
-    ptr := 0 :: ptrOfLens 0 (A.rows.toList.map List.length),
-    col := A.rows.toList.flatMap (fun r => r.map (fun cv => (cv.1 : Int))),
-    val := A.rows.toList.flatMap (fun r => r.map (·.2)) }
+/-- the raw arrays of a `CRS` (what `mm2bin` holds after reading) -/
+def RawCRS.ofCRS (A : CRS V) : RawCRS V := RawCRS.ofRows A.nrows A.ncols (A.rows.toList.map intRow)
 
 def binWriteCrs (enc : V → Bytes) (A : CRS V) : Bytes := binWriteRaw enc (RawCRS.ofCRS A)
 
